@@ -35,7 +35,24 @@ def main(ctx):
     ctx.proofs()
     aeic_setup()
     g = GuardScheduler()
-    # which variant does the code implement? (informational; the model follows the repaired code: locked)
+    # Shape of the ownership code, as the translator reads it. The line-level correspondence below compares traced-line
+    # counts with the hand-written instruction list of AeicModel/ThreadGuard.lean, which follows the canonical shape
+    # (`with lock: if owner is not None: if owner != me: raise / else: owner = me`). For any other shape (helper method,
+    # locals, merged conditions, ...) the tie to the source is the translator + the kernel-checked theorem
+    # `generated_guard_mutual_exclusion` for the regenerated program; the schedules are still run on the real code and
+    # the property clause (never both succeed) is still checked, but line counts are not compared with the hand model.
+    from harness.common import translator
+    try:
+        prog_text = translator.guard_program_text()
+    except Exception as e:  # noqa: BLE001  (already reported as a broken obligation by ctx.proofs())
+        prog_text = None
+        ctx.extra['guard_translation_error'] = str(e)[:300]
+    canonical = prog_text == translator.CANONICAL_GUARD
+    ctx.extra['guard_program'] = prog_text
+    ctx.extra['guard_shape'] = 'canonical' if canonical else ('untranslatable' if prog_text is None else 'other (translated, theorem re-checked)')
+    w = translator.guard_witness()
+    if w is not None:
+        ctx.extra['model_counterexample_schedule'] = w
     n = 4 if ctx.tier == 'quick' else 7
     scheds = []
     for pos in itertools.combinations(range(2 * n), n):  # positions of thread 0's grants: C(2n, n) interleavings
@@ -48,10 +65,13 @@ def main(ctx):
     both = 0
     runs = []
     for s in scheds:
-        res, lines, blocked, eff = g.run(s)
+        res, lines, blocked, eff = g.run(s) if canonical else g.run(s, region='ctor')
         runs.append((s, res, lines, blocked, eff))
     g.reset_class_state()
-    model = ctx.driver.outs([{'op': 'c20.run', 'locked': True, 'schedule': eff, 'threads': 2} for (_, _, _, _, eff) in runs])
+    if canonical:
+        model = ctx.driver.outs([{'op': 'c20.run', 'locked': True, 'schedule': eff, 'threads': 2} for (_, _, _, _, eff) in runs])
+    else:
+        model = [None] * len(runs)
     for (s, res, lines, blocked, eff), m in zip(runs, model):
         ctx.case(json.dumps(s), nontrivial=is_overlapping(eff),
                  sample={'schedule': s, 'effective': eff, 'result': res, 'lines': {k: len(v) for k, v in lines.items()}})
@@ -62,6 +82,9 @@ def main(ctx):
             ctx.clause_fail('mutual_exclusion', {'schedule': s, 'effective_schedule': eff, 'result': res,
                                                  'lines': {str(k): [g.line_text(x) for x in v] for k, v in lines.items()}},
                             detail='both racing constructors succeeded under this line-level interleaving')
+            continue
+        if m is None:
+            ctx.count('noncanonical_guard_schedules')
             continue
         impl = [res.get(0), res.get(1)]
         if impl != m['pcs'] or [len(lines[0]), len(lines[1])] != m['steps']:
